@@ -59,6 +59,7 @@ type tEvent struct {
 	Held []int  `json:"held"`
 	Scen int    `json:"scen"`
 	G    int64  `json:"g"` // goroutine that logged the event (program order within a goroutine is exact)
+	T    int64  `json:"t"` // milliseconds since the scenario started (diagnostics only: no check looks at it)
 }
 
 // goid: the id of the calling goroutine (harness only: used to split a trace into per-goroutine sequences)
@@ -135,6 +136,7 @@ type runner struct {
 	gates                 map[string]int
 	gateHook              func(point string, ids ...int)
 	readTimeout           time.Duration
+	t0                    time.Time
 	extraConns            int
 }
 
@@ -150,6 +152,7 @@ func (r *runner) emit(e tEvent) {
 		r.ended = true
 	}
 	e.Seq = r.out.Seq()
+	e.T = time.Since(r.t0).Milliseconds()
 	e.Scen = r.scen.ID
 	if e.Held == nil {
 		e.Held = []int{}
@@ -273,7 +276,16 @@ func (r *runner) waitFor(exp []sEvent) {
 			}
 		}
 	}
-	deadline := time.Now().Add(slowBudget.Timeout())
+	wait := slowBudget.Timeout()
+	for k := range need {
+		if k[0] == "stop_ret" || k[0] == "run_ret" {
+			// Stop legitimately takes its write grace period (1 s) when a handler is blocked writing to a client that does not
+			// read; on a loaded machine that and the teardown behind it have been seen to exceed 3 s
+			wait *= 4
+			break
+		}
+	}
+	deadline := time.Now().Add(wait)
 	timer := time.AfterFunc(time.Until(deadline), func() { r.mu.Lock(); r.cond.Broadcast(); r.mu.Unlock() })
 	defer timer.Stop()
 	r.mu.Lock()
@@ -857,6 +869,7 @@ func runScenario(sc *sScenario, out *hx.Out, seed int64, tlsSrv, tlsCli *tls.Con
 		runRet: make(chan error, 1), started: map[string]map[int]bool{}, relsd: map[string]map[int]bool{}, ocRel: make(chan struct{}),
 		stopRet: map[string]chan struct{}{}, seed: seed, gates: map[string]int{}}
 	r.cond = sync.NewCond(&r.mu)
+	r.t0 = time.Now()
 	if ps := sc.Cfg["procs"]; ps != "" {
 		// one P: a goroutine that has just been started does not run until its creator blocks - the schedule in which
 		// "spawn, then go on without blocking" orderings show
